@@ -105,6 +105,9 @@ type OperationResult struct {
 func ovsSliceToGoNotation(val interface{}) (interface{}, error) {
 	switch sl := val.(type) {
 	case []interface{}:
+		if len(sl) == 0 {
+			return val, nil
+		}
 		bsliced, err := json.Marshal(sl)
 		if err != nil {
 			return nil, err
